@@ -61,6 +61,19 @@ def run_case(c):
                 if not r["ok"]:
                     r.update(evaluations=n, case={"prop": "C06", "kind": "check", "inputs": {"m": canon(bytes(m))}})
                     return r
+        # near misses: a well-formed frame of each family one byte too long (every value of the extra byte: line-end and NUL
+        # characters included), one byte too short, and with each of its first four bytes altered
+        from .n_c05 import gen
+        for dt in (DeviceType.MINI, DeviceType.BREEZE, DeviceType.RUNNER):
+            good = bytes(gen(rnd, dt))
+            near = [good + bytes([b]) for b in range(256)] + [good[:-1], good[1:], b"\n" + good, good + b"\r\n"]
+            near += [bytes([b]) + good[1:] for b in (0, 0xff, 0xfd)] + [good[:1] + bytes([b]) + good[2:] for b in (0, 0xff, 0xf1)]
+            for m in near:
+                r = check(m)
+                n += 1
+                if not r["ok"]:
+                    r.update(evaluations=n, case={"prop": "C06", "kind": "check", "inputs": {"m": canon(m)}})
+                    return r
         for rep in range(3):
             m = bytearray(165)
             m[0:2] = b"\xfe\xf0"
